@@ -562,6 +562,8 @@ impl Ctx {
             }
         }
         if acc.is_none() {
+            // (only the fresh iterator: `Iter::len` keeps returning the total while the iterator is consumed — an
+            // upstream quirk of the `ExactSizeIterator` impl that none of the properties speaks about)
             let it = world.iter();
             let announced = it.len();
             if announced != iter.len() || announced != len as usize || world.is_empty() != (len == 0) {
@@ -1402,6 +1404,44 @@ impl Gen {
         self.plan.push_back(Op::Obs { w });
     }
 
+    /// scenario ops name "the handle pushed last" by this placeholder; it is bound when the op is issued
+    const LAST: HRef = HRef::Tab(usize::MAX, 0);
+
+    fn bind_last(op: Op, ctx: &Ctx) -> Op {
+        let last = || if ctx.table.is_empty() { HRef::Lit(u32::MAX, u32::MAX) } else { ctx.href(ctx.table.len() - 1) };
+        let is_last = |h: &HRef| matches!(h, HRef::Tab(n, _) if *n == usize::MAX);
+        match op {
+            Op::Insert { w, h, k, b } if is_last(&h) => Op::Insert { w, h: last(), k, b },
+            Op::Remove { w, h, k } if is_last(&h) => Op::Remove { w, h: last(), k },
+            Op::Exchange { w, h, ks, k, b } if is_last(&h) => Op::Exchange { w, h: last(), ks, k, b },
+            Op::Despawn { w, h } if is_last(&h) => Op::Despawn { w, h: last() },
+            Op::Query { w, q, path, h, n, es } if is_last(&h) => Op::Query { w, q, path, h: last(), n, es },
+            op => op,
+        }
+    }
+
+    /// scenario: one entity grows to ten component types of four different alignments, one insert at a
+    /// time, and shrinks again (lookups by type in wide archetypes)
+    fn plan_wide_entity(&mut self, w: usize) {
+        let first = *self.rng.pick(&[22usize, 23, 17, 21]).unwrap();
+        let b = self.bundle_for_types(&bundle_types(first));
+        self.plan.push_back(Op::Spawn { w, k: Some(first), b });
+        let mut singles = vec![1usize, 2, 3, 4, 5, 6, 7, 8, 9, 26];
+        self.rng.shuffle(&mut singles);
+        for (i, k) in singles.iter().enumerate() {
+            let b = self.bundle_for_types(&bundle_types(*k));
+            self.plan.push_back(Op::Insert { w, h: Self::LAST, k: Some(*k), b });
+            if i % 3 == 2 {
+                self.plan.push_back(Op::Obs { w });
+            }
+        }
+        self.plan.push_back(Op::Obs { w });
+        for k in singles.iter().take(4) {
+            self.plan.push_back(Op::Remove { w, h: Self::LAST, k: *k });
+        }
+        self.plan.push_back(Op::Obs { w });
+    }
+
     /// scenario: a prepared query is (re)built while an archetype it matches exists but is empty, the
     /// archetype is refilled without any new archetype appearing, and the prepared query is used again
     fn plan_stale_prepared(&mut self, w: usize) {
@@ -1650,19 +1690,25 @@ impl Gen {
 
     pub fn next_op(&mut self, ctx: &Ctx, nworlds: usize) -> Op {
         if let Some(op) = self.plan.pop_front() {
-            return op;
+            return Self::bind_last(op, ctx);
         }
         let w = if nworlds > 1 && self.rng.chance(25) { 1 } else { 0 };
+        if self.profile == Profile::Mixed && self.rng.chance(2) {
+            self.plan_wide_entity(w);
+            if let Some(op) = self.plan.pop_front() {
+                return Self::bind_last(op, ctx);
+            }
+        }
         if self.profile == Profile::Containers && self.rng.chance(4) {
             self.plan_round_trip(ctx, w);
             if let Some(op) = self.plan.pop_front() {
-                return op;
+                return Self::bind_last(op, ctx);
             }
         }
         if self.profile == Profile::Query && self.rng.chance(3) {
             self.plan_stale_prepared(w);
             if let Some(op) = self.plan.pop_front() {
-                return op;
+                return Self::bind_last(op, ctx);
             }
         }
         if matches!(self.profile, Profile::Mixed | Profile::Malformed) && self.rng.chance(1) {
